@@ -237,6 +237,14 @@ def search_rules(ctx, facts, rep):
     ok &= rep.check(good, rule, "inclusive-bound", where(f, f.span), "loop runs while pos >= lower bound (inclusive)", "loop bound comparison changed: %s" % ([show(s[2]) for s in sw]))
     cs = calls_matching(f, r"checked_sub$")
     good = bool(cs) and norm(ex.operand(cs[0][1]["args"][1], (cs[0][0], None))) == ("const", "u64", 1)
+    if not cs:
+        # `if pos == 0 { break } pos -= 1`
+        loops = f.loops()
+        for bi, si, s in f.stmts():
+            if s["k"] == "assign" and f.local_name(s["place"]["l"]) == "pos" and not s["place"]["p"] and loops and bi in loops[0][1]:
+                v = norm(ex.rvalue(s["rv"], (bi, si)))
+                if v[0] == "bin" and v[1] == "Sub" and v[3] == ("const", "u64", 1):
+                    good = True
     ok &= rep.check(good, rule, "step", where(f, f.span), "pos decreases by exactly 1", "search step is not 1")
     return ok
 
